@@ -127,6 +127,18 @@ StrSeqOK(r) ==
          /\ (r.ops[k].exc = 1) = ~st.ok
          /\ r.states[k + 1] = st.v
 
+\* DstArray(src): the selected values (first components; all values are small integers, exact in every element type), in a
+\* plain, writable, independent array that survives the release of its source
+ConvOK(r) ==
+    LET sel == SelectSeq(r.vals, LAMBDA v : TRUE)
+        idx == SelIdx(r.mask)
+        want == [k \in 1..Len(idx) |-> r.vals[idx[k] + 1]]
+    IN  /\ r.exc = 0
+        /\ r.len = Len(want) /\ r.out = want
+        /\ r.srcafter = r.vals                                        \* writing to the copy does not reach the source
+        /\ r.wrote = (IF Len(want) > 0 THEN 1 ELSE 0)                  \* the copy is writable even when the source is not
+        /\ r.after = [k \in 1..Len(want) |-> IF k = 1 THEN 60 ELSE want[k]]
+
 \* FixedVArray: a Python list of lists.  Row i of the array built from sizes s is  [V2(i, j) : j < s[i]].
 VRow(i, m) == [j \in 1..m |-> V2(i, j - 1)]
 VFull(sizes) == [i \in 1..Len(sizes) |-> VRow(i - 1, sizes[i])]
